@@ -318,6 +318,21 @@ func (l *Lowerer) stmt(s ast.Stmt) Stmt {
 		return lp
 	case *ast.RangeStmt:
 		lp := &Loop{node: node{x.Pos()}, Stmt: x}
+		// for i := range n over an integer is the counted loop for i := 0; i < n; i++
+		if id, ok := x.Key.(*ast.Ident); ok && x.Value == nil && x.Tok == token.DEFINE && id.Name != "_" {
+			if tv, ok := l.Info.Types[x.X]; ok && tv.Type != nil {
+				if b, ok := tv.Type.Underlying().(*types.Basic); ok && b.Info()&types.IsInteger != 0 {
+					if k := l.defVar(id); k != nil {
+						pos := x.Pos()
+						lp.Init = &Let{node: node{pos}, Vars: []*types.Var{k}, Val: &Lit{node{pos}, token.INT, "0"}}
+						lp.Cond = &BinOp{node{pos}, "<", &Local{node{pos}, k}, l.expr(x.X)}
+						lp.Post = &Assign{node{pos}, &Local{node{pos}, k}, &Lit{node{pos}, token.INT, "1"}, "++"}
+						lp.Body = l.block(desugarContinue(x.Body.List), x.Body)
+						return lp
+					}
+				}
+			}
+		}
 		if id, ok := x.Key.(*ast.Ident); ok {
 			lp.Key = l.defVar(id)
 		}
